@@ -15,6 +15,8 @@ func main() {
 	switch os.Args[1] {
 	case "t1":
 		err = runT1(os.Args[2], os.Args[3])
+	case "t2":
+		err = runT2(os.Args[2], os.Args[3])
 	default:
 		err = fmt.Errorf("unknown subcommand %s", os.Args[1])
 	}
